@@ -31,7 +31,9 @@ PATS = {"*.bak": ["x.bak", "old.bak"], "tmp*": ["tmpA", "tmp_2.bin"], "cache/": 
         "z9": ["z9"], "thumbs/": ["thumbs/t.jpg"],
         # patterns with an inner slash are anchored at the root of the history that applies them
         "P/Q/*.tmp": ["P/Q/render.tmp", "P/Q/later.tmp"], "/R1/R2/x.dat": ["R1/R2/x.dat"], "S/T/": ["S/T/u.bin"],
-        "Q/later.tmp": ["Q/later.tmp"], "P/*/deep.bin": ["P/Q/deep.bin", "P/W/deep.bin"]}
+        "Q/later.tmp": ["Q/later.tmp"], "P/*/deep.bin": ["P/Q/deep.bin", "P/W/deep.bin"],
+        # a backslash is an ordinary character of a POSIX file name; these patterns match across it
+        "ren*.cch": ["ren\\der.cch"], "back?slash.dat": ["back\\slash.dat"]}
 
 
 def generate(rng, tier):
